@@ -41,7 +41,8 @@ def replay(ctx, n, w, stride):
     ctx.nontrivial += rep
     ctx.stages[-1].update({"schedules_total": total, "replayed": rep, "unreplayable": unrep})
     if unrep > rep:
-        raise vlib.ToolError("most schedules could not be replayed (%d of %d)" % (unrep, rep + unrep))
+        # the code does not follow the specification's schedules at hook granularity: the free-running stages decide
+        ctx.deferred.append("most schedules could not be replayed (%d of %d)" % (unrep, rep + unrep))
     with open(path) as f:
         ctx.sample({"stage": "schedule", "n": n, "w": w, "schedule": json.loads(f.readline())})
     return ok
